@@ -73,7 +73,9 @@ def _clone(eng, st, o, args, kw, node):
     cur = st.heap[o.oid]
     if getattr(o, "abstract", False):
         # interface-typed object: the clone carries the same declared hyper-parameter fields, unfitted
-        st.heap[new.oid] = {k: v for k, v in cur.items() if not k.startswith("ghost_") and k not in ("_is_fitted", "_X")}
+        # fitted state is dropped; ghost *traits* (immutable facts about the configuration: parameter count, per-variable output, kind) are kept
+        fitted_state = ("ghost_tok", "ghost_n", "ghost_p", "ghost_q", "ghost_clone_of", "_is_fitted", "_X")
+        st.heap[new.oid] = {k: v for k, v in cur.items() if k not in fitted_state}
         st.heap[new.oid]["_is_fitted"] = False
         st.heap[new.oid]["ghost_clone_of"] = o
         return [(st, new)]
